@@ -45,6 +45,10 @@ def run(ctx):
     for variant in ("handoff", "send", "reader"):
         ctx.mc("redis", "Upstream", "MC_Upstream_%s.cfg" % variant, workers=4, timeout=300,
                expect_violated=["NoLostRequest", "NoStuckSender", "TEMPORAL"], count=False)
+    # 2b. a request answered by the filter chain itself (command disabled in compress mode) behind buffered requests
+    ctx.mc("redis", "Upstream", "MC_Upstream_banned_fixed.cfg", workers=6, timeout=600)
+    ctx.mc("redis", "Upstream", "MC_Upstream_banned_pinned.cfg", workers=4, timeout=300,
+           expect_violated=["NoLostRequest", "TEMPORAL"], count=False)
     # 3. forced replay of TLC behaviours
     num = 400 if ctx.thorough else 45
     behs = gen_behaviours(ctx, "Gen_Upstream.cfg", num, 160, ctx.seed)
